@@ -31,7 +31,13 @@ fn run_bin(bin: &str, query: &str, mode: &str, input: &[u8]) -> Option<(Vec<u8>,
             });
         }
     }
+    let (done, fired) = kill_after(child.id(), 60);
     let out = child.wait_with_output().ok()?;
+    done.store(true, std::sync::atomic::Ordering::SeqCst);
+    if fired.load(std::sync::atomic::Ordering::SeqCst) {
+        // the run did not end (judged by C11/C17); report it as exit status -9 so that the runs differ
+        return Some((out.stdout, -9));
+    }
     Some((out.stdout, out.status.code().unwrap_or(-1)))
 }
 
